@@ -96,6 +96,7 @@ func (c *clipperBase) buildTree(polytree *PolyPathBase, solutionOpen *Paths64) {
 			if c.buildPath(outrec.pts, c.reverseSolution, true, &openPath) {
 				*solutionOpen = append(*solutionOpen, openPath)
 			}
+			continue
 		}
 		if c.checkBounds(outrec) {
 			c.recursiveCheckOwners(outrec, polytree)
